@@ -210,6 +210,9 @@ func NewWorld(prog *load.Program, specDir string) (*World, error) {
 			}
 			w.Contracts[key] = fs
 		}
+		for _, tn := range f.Stable {
+			w.addStableGetters(f, tn)
+		}
 		for _, sf := range f.Specs {
 			w.SpecFuncs[sf.Name] = sf
 		}
@@ -224,6 +227,55 @@ func NewWorld(prog *load.Program, specDir string) (*World, error) {
 	w.findImmutableGlobals()
 	w.TypesPkg("io") // build the package index before units run concurrently
 	return w, nil
+}
+
+// addStableGetters synthesises "stable, no effect" contracts for the getters of an interface type:
+// methods without parameters, with one result, whose name does not start with "Set".
+func (w *World) addStableGetters(f *spec.File, tn string) {
+	tn = strings.TrimSpace(tn)
+	path, name := f.Pkg, tn
+	if i := strings.LastIndex(tn, "."); i >= 0 {
+		q := tn[:i]
+		name = tn[i+1:]
+		path = q
+		if full, ok := f.Imports[q]; ok {
+			path = full
+		} else if pk := w.Prog.All[f.Pkg]; pk != nil && pk.Types != nil {
+			for _, imp := range pk.Types.Imports() {
+				if imp.Name() == q {
+					path = imp.Path()
+				}
+			}
+		}
+	}
+	tp := w.TypesPkg(path)
+	if tp == nil {
+		w.Problems = append(w.Problems, fmt.Sprintf("%s: stablegetters: unknown package of %s", f.Path, tn))
+		return
+	}
+	obj, ok := tp.Scope().Lookup(name).(*types.TypeName)
+	if !ok {
+		w.Problems = append(w.Problems, fmt.Sprintf("%s: stablegetters: unknown type %s", f.Path, tn))
+		return
+	}
+	it, ok := obj.Type().Underlying().(*types.Interface)
+	if !ok {
+		w.Problems = append(w.Problems, fmt.Sprintf("%s: stablegetters: %s is not an interface", f.Path, tn))
+		return
+	}
+	for i := 0; i < it.NumMethods(); i++ {
+		m := it.Method(i)
+		sig := m.Type().(*types.Signature)
+		if sig.Params().Len() != 0 || sig.Results().Len() != 1 || strings.HasPrefix(m.Name(), "Set") {
+			continue
+		}
+		key := MethodKey(m)
+		if _, dup := w.Contracts[key]; dup {
+			continue
+		}
+		w.Contracts[key] = &spec.FuncSpec{Ref: key, Key: key, NoEffect: true, External: true, Trusted: "stable getter of " + tn,
+			Opts: map[string]string{"stable": "true"}, Pkg: f.Pkg, Pos: spec.Pos{File: f.Path}}
+	}
 }
 
 // resolveRef canonicalises a function reference written in a contract file.
@@ -534,6 +586,7 @@ type Engine struct {
 	nonNilDone   map[string]bool
 	dynDone      map[string]bool
 	zeroArrDone  map[string]bool
+	pathModel    []ModelTerm
 }
 
 func newEngine(w *World, unit string) *Engine {
